@@ -90,21 +90,18 @@ Theorem C09_unbalanced_collision_refuted :
 Proof. exact unbalanced_collision_refuted. Qed.
 Print Assumptions C09_unbalanced_collision_refuted.
 
-(** 2. Numbering / atom-order independence and fixed point, graph level, PARTIAL.
-       FULL CLAIM of the property text (not proved): CanonRSMI.canonical_rsmi (a string) is the same for every renumbering /
-       re-rooting / fragment shuffle of the input whose reactant atoms are all distinguishable, and canonicalising the
-       canonical string returns it.  What is proved: both presentations (G, H) and (p.G, p.H) (node ids renamed by an
-       injective p, atoms listed in any order, atom_map attributes rewritten) get THE SAME canonical reactant and product
-       graphs up to node insertion order, PROVIDED (premise, last line) the graph canonicaliser is invariant, i.e. gives
-       corresponding atoms the same canonical id (C08: nauty invariance holds when all atoms are distinguishable, wl only
-       when all WL colours differ; monitored by the oracle on every run), and p keeps the relative order of the product
-       atoms WITHOUT reactant partner (they are numbered in the order of their input numbers; vacuous when every product
-       atom has a partner).
-       Missing: (i) RDKit's writer is a function of the graph up to node order and its re-parse returns the graph
-       (oracle S2, monitored), (ii) the invariance premise is not discharged from C08 here, (iii) with two or more
-       partner-less product atoms an order-changing renumbering can change the result (monitored: clause
-       canon-numbering-independent; none in the corpora). *)
-Theorem C09_numbering_independent_partial :
+(** 2. Numbering / atom-order independence and fixed point, graph level, GENERIC over the canonical order of the back-end.
+       (Rounds 2-4 called these two statements _partial: they left open (i) the RDKit writer / parser contract, (ii) the
+       invariance premise, (iii) presentations that list the bonds in another order.  Round 5 closes all three for the
+       back-ends of the property's quantifier - section 8: C09_numbering_independent_nauty / _wl, C09_fixed_point_nauty / _wl,
+       C09_canonical_rsmi_* - so the statements below are now lemmas "given the invariance of the graph canonicaliser", named
+       accordingly.)
+       Both presentations (G, H) and (p.G, p.H) (node ids renamed by an injective p, atoms listed in any order, atom_map
+       attributes rewritten, bonds listed in corresponding order) get THE SAME canonical reactant and product graphs up to node
+       insertion order, PROVIDED (premise, last line) the graph canonicaliser gives corresponding atoms the same canonical id,
+       and p keeps the relative order of the product atoms WITHOUT reactant partner (they are numbered in the order of their
+       input numbers; vacuous when every product atom has a partner; necessary: C09_numbering_partnerless_refuted). *)
+Theorem C09_numbering_independent_given_invariance :
   forall (G H G2' H2' Gc1 Gc2 : mgraph) (order1 order2 : list N) (p : N -> N),
   parsed G -> parsed H -> (exists s, In s (node_ids G) /\ In s (node_ids H)) ->
   (forall a b, p a = p b -> a = b) -> (forall n, In n (node_ids G) \/ In n (node_ids H) -> p n <> 0%N) ->
@@ -118,12 +115,12 @@ Theorem C09_numbering_independent_partial :
     canonicalise_with Gc2 (set_amap H2') = Some (set_amap Gc2, pairs2, set_amap Hc2) /\
     same_upto_order (set_amap Gc2) (set_amap Gc1) /\ same_upto_order (set_amap Hc2) (set_amap Hc1).
 Proof. exact presentation_independent_mono. Qed.
-Print Assumptions C09_numbering_independent_partial.
+Print Assumptions C09_numbering_independent_given_invariance.
 
 (** fixed point (balanced or not, partner-less product atoms included): canonicalising the canonical graphs returns
     them (up to node insertion order) provided the graph canonicaliser maps every canonical reactant id to itself
-    (premise; C08 + monitored).  Missing for the string-level claim: the RDKit writer / parser contract S2. *)
-Theorem C09_fixed_point_partial : forall (G H Gc1 : mgraph) (order1 : list N),
+    (premise; discharged for wl and nauty in section 8, where the string level is treated too). *)
+Theorem C09_fixed_point_given_invariance : forall (G H Gc1 : mgraph) (order1 : list N),
   parsed G -> parsed H -> (exists s, In s (node_ids G) /\ In s (node_ids H)) ->
   enumerates order1 G -> relabelled_by (sigma_of order1) G Gc1 ->
   exists (pairs1 : list (N * N)) (Gc1' Hc1' : mgraph),
@@ -135,9 +132,9 @@ Theorem C09_fixed_point_partial : forall (G H Gc1 : mgraph) (order1 : list N),
         canonicalise_with Gc2 Hc1' = Some (set_amap Gc2, pairs2, Hc2') /\
         same_upto_order (set_amap Gc2) Gc1' /\ same_upto_order Hc2' Hc1'.
 Proof. exact fixed_point_gen. Qed.
-Print Assumptions C09_fixed_point_partial.
+Print Assumptions C09_fixed_point_given_invariance.
 
-(** the order premise of C09_numbering_independent_partial is necessary: with two product atoms without reactant partner
+(** the order premise of C09_numbering_independent_given_invariance is necessary: with two product atoms without reactant partner
     ([Na+:8] and [K+:9] added to CH3Br + OH- >> CH3OH + Br-), exchanging their numbers - a renumbering that fixes every
     reactant atom - exchanges their canonical numbers: canonical product atom 4 is Na in one presentation and K in the
     other although all reactant atoms are distinguishable.  Known finding (key partnerless-product-atoms-order). *)
@@ -566,6 +563,14 @@ Theorem C09_cstep_failed : forall (canonG : mgraph -> mgraph) (G H : mgraph) (st
   cstep canonG (Some (G, H)) st = CS (Some G) (Some H) (Some (canonG G)) (Some []) None false.
 Proof. exact cstep_failed. Qed.
 Print Assumptions C09_cstep_failed.
+
+(** exactly when CanonRSMI.canonicalise raises ValueError("node_map must be non-empty"): when the two sides share no atom map -
+    in particular for a reaction without map numbers (expand_aam numbers all atoms differently, C09_expand_sides_spec) *)
+Theorem C09_canonicalise_fails_iff : forall (G H Gc : mgraph) (order : list N),
+  parsed G -> parsed H -> enumerates order G -> relabelled_by (sigma_of order) G Gc ->
+  (canonicalise_with Gc H = None <-> ~ exists s, In s (node_ids G) /\ In s (node_ids H)).
+Proof. exact canonicalise_fails_iff. Qed.
+Print Assumptions C09_canonicalise_fails_iff.
 
 (** 8. FULL numbering / atom-order independence and fixed point of the two back-ends (round 5).
        Vocabulary (proof/C09_Graph.v, proof/C09_Backends.v):
